@@ -59,6 +59,7 @@ pub struct Player {
     pub light_obs: bool,
     pub skip_obs: bool,
     pub cell_order: Vec<String>,
+    pub u_probe_addr: BTreeSet<String>,
 }
 
 fn hexs(b: &[u8]) -> String {
@@ -109,6 +110,7 @@ impl Player {
             light_obs: false,
             skip_obs: false,
             cell_order: Vec::new(),
+            u_probe_addr: BTreeSet::new(),
         };
         for a in ["idx", "ctrl", "dead"] {
             p.u_addr.insert(a.to_string());
@@ -420,6 +422,7 @@ impl Player {
             "ops": if step["ops"].is_array() { step["ops"].clone() } else { json!([]) },
             "lc": if Self::has_lc(step) { step["lc"].clone() } else { json!({"fn": "none"}) },
             "gas": if step["gas"] == json!("tiny") { json!("tiny") } else { json!("ample") },
+            "txid": if step["txid"].is_string() { step["txid"].clone() } else { json!("zero") },
         })
     }
 
@@ -584,7 +587,7 @@ impl Player {
                 self.u_bal.insert((tk.clone(), spell.clone(), holder.clone()));
                 self.u_bal.insert((tk.clone(), tk.clone(), holder.clone()));
                 let lc = json!({"fn": if via == "deposit" { "mint" } else { "burn" }, "on": "ctrl", "tk": tk, "spell": spell, "a": holder, "b": "zero", "v": amt});
-                let tx = json!({"kind": "call", "from": "idx", "to": "ctrl", "ckind": "NULL", "ops": [], "lc": lc, "gas": "ample"});
+                let tx = json!({"kind": "call", "from": "idx", "to": "ctrl", "ckind": "NULL", "ops": [], "lc": lc, "gas": "ample", "txid": "zero"});
                 (if via == "deposit" { "brc20_deposit" } else { "brc20_withdraw" }, tx)
             }
             _ => ("brc20_call", json!({})),
@@ -601,6 +604,13 @@ impl Player {
                 let again = self.inst.call("eth_getTransactionReceipt", json!([rc["transactionHash"]]));
                 ev["returned_eq_served"] = json!(again.ok() == Some(rc));
                 ev["rc"] = a;
+                if abs_tx["ckind"] == json!("probe") {
+                    if let Some(c) = ev["rc"]["created"].as_str() {
+                        if c != "NULL" {
+                            self.u_probe_addr.insert(c.to_string());
+                        }
+                    }
+                }
                 if abs_tx["ckind"] == json!("cell") {
                     if let Some(c) = ev["rc"]["created"].as_str() {
                         if c != "NULL" {
@@ -899,6 +909,24 @@ impl Player {
                 cells.push(json!({"a": a, "s": s, "v": if n < U256::from(1_000_000u64) { json!(n.as_limbs()[0]) } else { json!("?") }}));
             }
         }
+        // ---- execution context recorded by Probe contracts (C19)
+        let mut probe = Vec::new();
+        for a in self.u_probe_addr.clone() {
+            let hx = self.addr_hex(&a);
+            for slot in 1..=17u64 {
+                let v = self.get("eth_getStorageAt", json!([hx, format!("{:#x}", slot)])).ok().cloned().unwrap_or(Value::Null);
+                let w = v.as_str().and_then(|s| U256::from_str_radix(s.trim_start_matches("0x"), 16).ok()).unwrap_or(U256::MAX);
+                let b = B256::from(w.to_be_bytes::<32>());
+                let abs = match slot {
+                    3 | 10 | 11 | 12 | 13 | 14 => format!("h:{}", names::token_of_hash(&b)),
+                    4 => if w == U256::from(self.chain_id) { "n:own".to_string() } else { format!("n:{}", w) },
+                    7 | 8 | 9 => { let ad = Address::from_slice(&b.as_slice()[12..]); format!("a:{}", self.names.name(&ad)) }
+                    17 => format!("x:{}", names::token_of_txid(&b)),
+                    _ => format!("n:{}", w),
+                };
+                probe.push(json!({"a": a, "s": slot, "v": abs}));
+            }
+        }
         // ---- pending pool
         let mut pool = Vec::new();
         let pc = self.get("txpool_content", json!([])).ok().cloned().unwrap_or(Value::Null);
@@ -954,7 +982,7 @@ impl Player {
         json!({
             "height": if height == u64::MAX { json!("ERR") } else { json!(height) },
             "blocks": blocks, "byhash": byhash, "txs": txs, "byidx": byidx, "insc": insc, "cinsc": cinsc,
-            "nonces": nonces, "code": code, "cells": cells, "pool": pool, "logs": logs,
+            "nonces": nonces, "code": code, "cells": cells, "probe": probe, "pool": pool, "logs": logs,
             "ledger": self.last_ledger.clone(), "boundary": at_boundary, "lo": lo,
             "flags": flags, "flagfail": fail,
         })
